@@ -276,9 +276,12 @@ def read_model_check(pid, quick, which='seek'):
        which='seek': seekable handle - fetch-and-process, read, raw seek, page seek hand-over, sample-exact seek, half rate: what a read hands out is what the
        stand-alone decode has at the position reported; pinned rule: the discard loop of ov_pcm_seek judging by the FIRST link's long block;
        which='stream': streaming handle read to the end - every sample of every link once and in order; pinned rule: the link bound to the serial number of
-       the BOS page in hand instead of the Vorbis stream's.  TLC must refute the pinned rules."""
+       the BOS page in hand instead of the Vorbis stream's;
+       which='lap': lapped sample seeks among reads and raw seeks - a lapped seek lands where the plain one does and reports end of file only where nothing
+       follows; pinned rule: every BOS page of another serial number taken for the next link.  TLC must refute the pinned rules."""
     out = dict(states=0, transitions=0, configs={}, pinned_rules_refuted={}); viol = []
     if which == 'seek': cfgs = ['VFRead_MC.cfg'] + ([] if quick else ['VFRead_MC_bsizes.cfg', 'VFRead_MC_half.cfg', 'VFRead_MC_2.cfg', 'VFRead_MC_half2.cfg']); pinned = 'VFRead_MC_pinned_vi.cfg'
+    elif which == 'lap': cfgs = ['VFRead_MC_lap.cfg'] + ([] if quick else ['VFRead_MC_lap2.cfg']); pinned = 'VFRead_MC_pinned_bos.cfg'
     else: cfgs = ['VFRead_MC_stream_q.cfg'] + ([] if quick else ['VFRead_MC_stream.cfg']); pinned = 'VFRead_MC_pinned_ser.cfg'
     for c in cfgs:
         r = vlib.run_tlc_cached('VFRead_MC.tla', c, workers=8 if quick else 14, timeout=600 if quick else 3000, xmx='4g' if quick else '12g')
@@ -479,6 +482,23 @@ def check_c19(pid, tier, seed, replay=None):
                 else:
                     tg = pcm_targets(rng, f, 12 if quick else 150) + oor_pcm()[:2]
                 scs.append(fam_lapgrid(rng, f, kind, tg, f'lap-{kind}-{f}-{pre}', pre))
+    # lapping with the byte cursor at the very beginning of a link (after a raw seek to the link's first page), with and without a decoder in that link:
+    # the pages between there and the audio are header pages, and BOS pages of streams multiplexed into the link - no boundary to stop at
+    # (found by VFRead_MC: LapOutcome)
+    for f in ['E', 'ZC', 'ZF', 'B', 'X'] + ([] if quick else ['K', 'Q', 'P', 'Y']):
+        nl = nlinks(f)
+        for kind in ('psl', 'pspl', 'rsl', 'tsl'):
+            ls = [f'open 0 {fid(f)} seek']
+            for l in range(nl):
+                for warm in (False, True):
+                    if warm: ls += [f'ps 0 p:{l}:1:0', 'rf 0 64']          # a decoder in this link
+                    ls.append(f'rs 0 o:{l}:0:0')
+                    if kind == 'tsl': ls.append(f'tsl 0 {l} {rng.choice([0, 1, 500])} {rng.randrange(4)}')
+                    elif kind == 'rsl': ls.append(f'rsl 0 {rng.choice([f"o:{l}:0:0", f"od:{l}:0", f"o:{l}:3:0"])}')
+                    else: ls.append(f'{kind} 0 {rng.choice([f"p:{l}:0:0", f"p:{l}:1:1", f"f:{l}:1:2:0"])}')
+                    ls += ['rf 0 64', 'rf 0 4096']
+            ls.append('clear 0')
+            scs.append(Scenario(f'lap-linkstart-{kind}-{f}', [f], ls, 'lap-from-link-start', budget=90))
     pairs = [('B','T'),('T','B'),('C','I'),('K','E'),('T','T')] + ([] if quick else [('A','K'),('S','B'),('N','C'),('E','E'),('H','T'),('R','T')])
     for (a,b) in pairs:
         scs.append(fam_crosslap(rng, a, b, f'xlap-{a}-{b}', 5 if quick else 40))
@@ -487,12 +507,16 @@ def check_c19(pid, tier, seed, replay=None):
         if not any(x[0] in ('psl','pspl','rsl','tsl','tspl') for x in hst): continue
         f = files[i % len(files)]
         scs.append(fam_from_tla(hst, f, f'tlalap{i}-{f}', family='tla-history-lap'))
-    res = run_batch(pid, tier, scs, bindir)
+    with ThreadPoolExecutor(max_workers=2) as ex0:
+        fmc = ex0.submit(read_model_check, pid, quick, 'lap')
+        res = run_batch(pid, tier, with_pages(scs), bindir)
+        mc, extra_viol = fmc.result()
+    readmodel = model_fidelity(res, 'VFRead_Trace'); readmodel['design'] = mc
     rules = SEEK_RULES | READ_RULES | SAFETY_RULES | XL_RULES
     def nt(s, evs): return any(e.get('e','').endswith('Lap') and e.get('ret')==0 for e in evs) or any(e.get('e')=='Crosslap' and e.get('ret')==0 for e in evs)
     return finish(pid, tier, seed, 'model_checking', scs, res, rules, t0,
       'scenario = chain of lapped seeks of one variant (each followed by reads) from one prior-history class, or a sequence of ov_crosslap calls between two handles at generated positions, or a TLC-generated history containing lapped seeks; after a lapped seek only the first min(bs0_old,bs0_new)/2 samples may differ from the reference (checked per read via the first-match index); non-trivial = at least one successful lapped seek / crosslap; distinct = distinct script text',
-      nt, COMMON_ASSUME + ['values inside the lapped region are not decided (float cross-fade)'], extra_cov=dict(tla_generator=tl['stats']))
+      nt, COMMON_ASSUME + ['values inside the lapped region are not decided (float cross-fade)'], extra_cov=dict(tla_generator=tl['stats'], read_model=readmodel, design_model=dict(states=mc['states'], transitions=mc['transitions'])), extra_viol=extra_viol)
 
 # ---------------------------------------------------------------- C20 half rate
 def fam_halfrate(rng, f, name, n, toggle_at):
